@@ -220,6 +220,7 @@ def run(ctx):
 
             pol = FlowPolicy(program, may_raise_all=False, cancel=False, summaries={
                 "Function.create_task": create_task, "task.result": lambda i, n, a, k, c, o: [(c, Sym(("function-result",)))],
+                "task.cancelled": lambda i, n, a, k, c, o: [(c, Const(False))],  # the run completes (a cancelled run has no result: C14)
                 "AstEval": lambda i, n, a, k, c, o: [(c, ObjV("run_evaluator", "AstEval"))], "Function.install_ast_funcs": lambda i, n, a, k, c, o: [(c, Const(None))]},
                 globals_={"self": ObjV("owner", "Owner"), "func": ObjV("the_function", "EvalFunc"), "func_name": Const("f"), "trig_ctx_name": Const("file.x")})
             heap = {"call.context": call_ctx, "call.data": data, "call.service": Const("svc"), "owner.dm": ObjV("dm", "FunctionDecoratorManager"), "dm.eval_func": ObjV("the_function", "EvalFunc"),
